@@ -6,7 +6,7 @@ export GOFLAGS= GOPROXY=off GOSUMDB=off GOTOOLCHAIN=local
 unset GOWORK
 out=$(mktemp)
 for m in go/mcap go/ros go/conformance/test-read-conformance go/conformance/test-write-conformance; do
-  (cd /repo/$m && go test -json -vet=off -count=1 -timeout 25m ./... ) >> "$out" 2>/dev/null
+  (cd ${REPO:-/repo}/$m && go test -json -vet=off -count=1 -timeout 25m ./... ) >> "$out" 2>/dev/null
 done
 python3 - "$out" <<'PY'
 import json,sys
